@@ -107,6 +107,8 @@ BuildMism(e) ==
           \cup (IF e.vec.same # 1 THEN {"sinks.write_to_vec_differs"} ELSE {})
           \cup (IF e.slice.same # 1 \/ e.slice.ret # exp_size THEN {"sinks.write_to_slice_differs"} ELSE {})
           \cup (IF e.slice.canary # 1 THEN {"sinks.wrote_outside_slice"} ELSE {})
+          \* a slice of exactly size(payload_len) bytes is enough
+          \cup (IF e.exact # <<"ok", exp_size, 1, 1>> THEN {"sinks.exact_size_slice"} ELSE {})
           \* every slice that is too short (0, 1, inside each part, one byte short): a space error that states the length
           \* really required, nothing written outside, whatever was written is a prefix of the encoding
           \cup UNION {LET s == e.shorts[i] IN
